@@ -170,8 +170,8 @@ class Mon:
                 ctx.check(bool(np.all(a[m] > 0)), f'{key}/not-positive', f'{key}: output is not strictly positive for moderate theta', lambda: mon.wit(c))
             return post
 
-        ctx.attach(I, 'to_positive_real_softplus', post=post_positive('to_positive_real_softplus'), point='to_positive_real_softplus', immutable_args=True)
-        ctx.attach(I, 'to_positive_real_exp', post=post_positive('to_positive_real_exp'), point='to_positive_real_exp', immutable_args=True)
+        ctx.attach(I, 'to_positive_real_softplus', post=post_positive('to_positive_real_softplus'), point='to_positive_real_softplus', immutable_args=True, normalize=True)
+        ctx.attach(I, 'to_positive_real_exp', post=post_positive('to_positive_real_exp'), point='to_positive_real_exp', immutable_args=True, normalize=True)
 
         def post_interval(c):
             if c.exc is not None:
@@ -189,7 +189,7 @@ class Mon:
             if upper > lower:
                 ctx.check(bool(np.all(a[m] > lower) and np.all(a[m] < upper)), f'{key}/not-open', 'to_open_interval: value not strictly inside for moderate theta', lambda: mon.wit(c))
 
-        ctx.attach(I, 'to_open_interval', post=post_interval, point='to_open_interval', immutable_args=True)
+        ctx.attach(I, 'to_open_interval', post=post_interval, point='to_open_interval', immutable_args=True, normalize=True)
 
         # ------------------------------------------------ sphere / ball
         def post_sphere(key, coordinate):
@@ -209,8 +209,8 @@ class Mon:
                 mon.batched_vs_single(key, c, tol, mon.thr(c.args[0]))
             return post
 
-        ctx.attach(I, 'to_sphere_quotient', post=post_sphere('to_sphere_quotient', False), point='to_sphere_quotient', immutable_args=True)
-        ctx.attach(I, 'to_sphere_coordinate', post=post_sphere('to_sphere_coordinate', True), point='to_sphere_coordinate', immutable_args=True)
+        ctx.attach(I, 'to_sphere_quotient', post=post_sphere('to_sphere_quotient', False), point='to_sphere_quotient', immutable_args=True, normalize=True)
+        ctx.attach(I, 'to_sphere_coordinate', post=post_sphere('to_sphere_coordinate', True), point='to_sphere_coordinate', immutable_args=True, normalize=True)
 
         def post_ball(c):
             if c.exc is not None:
@@ -227,7 +227,7 @@ class Mon:
                       lambda: {**mon.wit(c), 'max_norm': float(nrm.max())})
             mon.batched_vs_single(key, c, tol_of(c.args[0], th.shape[-1]), mon.thr(c.args[0]))
 
-        ctx.attach(I, 'to_ball', post=post_ball, point='to_ball', immutable_args=True)
+        ctx.attach(I, 'to_ball', post=post_ball, point='to_ball', immutable_args=True, normalize=True)
 
         # ------------------------------------------------ probability simplex
         def post_prob(key):
@@ -245,8 +245,8 @@ class Mon:
                 mon.batched_vs_single(key, c, tol, mon.thr(c.args[0]))
             return post
 
-        ctx.attach(I, 'to_discrete_probability_softmax', post=post_prob('to_discrete_probability_softmax'), point='to_discrete_probability_softmax', immutable_args=True)
-        ctx.attach(I, 'to_discrete_probability_sphere', post=post_prob('to_discrete_probability_sphere'), point='to_discrete_probability_sphere', immutable_args=True)
+        ctx.attach(I, 'to_discrete_probability_softmax', post=post_prob('to_discrete_probability_softmax'), point='to_discrete_probability_softmax', immutable_args=True, normalize=True)
+        ctx.attach(I, 'to_discrete_probability_sphere', post=post_prob('to_discrete_probability_sphere'), point='to_discrete_probability_sphere', immutable_args=True, normalize=True)
 
         # ------------------------------------------------ density matrices
         def check_psd(key, c, a, dim, rank, size, is_real):
@@ -282,8 +282,8 @@ class Mon:
                 mon.batched_vs_single(key, c, tol, thr)
             return post
 
-        ctx.attach(I, 'to_trace1_psd_cholesky', post=post_psd('to_trace1_psd_cholesky'), point='to_trace1_psd_cholesky')
-        ctx.attach(I, 'to_trace1_psd_ensemble', post=post_psd('to_trace1_psd_ensemble'), point='to_trace1_psd_ensemble')
+        ctx.attach(I, 'to_trace1_psd_cholesky', post=post_psd('to_trace1_psd_cholesky'), point='to_trace1_psd_cholesky', immutable_args=True, normalize=True)
+        ctx.attach(I, 'to_trace1_psd_ensemble', post=post_psd('to_trace1_psd_ensemble'), point='to_trace1_psd_ensemble', immutable_args=True, normalize=True)
 
         def post_sym2psd(c):
             if c.exc is not None:
@@ -303,7 +303,7 @@ class Mon:
             w = np.linalg.eigvalsh((a + hconj(a)) / 2)
             mon.judge(f'{key}/psd', max(0.0, -float(w.min())), tol, f'{key}: negative eigenvalue', lambda: mon.wit(c), thr)
 
-        ctx.attach(I, 'symmetric_matrix_to_trace1PSD', post=post_sym2psd, point='symmetric_matrix_to_trace1PSD', immutable_args=True)
+        ctx.attach(I, 'symmetric_matrix_to_trace1PSD', post=post_sym2psd, point='symmetric_matrix_to_trace1PSD', immutable_args=True, normalize=True)
 
         # ------------------------------------------------ symmetric / Hermitian matrices
         def post_symmetric(c):
@@ -328,7 +328,7 @@ class Mon:
                 mon.judge(f'{key}/norm-one', np.abs(np.linalg.norm(a, axis=(-2, -1)) - 1).max(), tol, f'{key}: Frobenius norm is not one', lambda: mon.wit(c), thr)
             mon.batched_vs_single(key, c, tol, thr)
 
-        ctx.attach(I, 'to_symmetric_matrix', post=post_symmetric, point='to_symmetric_matrix', immutable_args=True)
+        ctx.attach(I, 'to_symmetric_matrix', post=post_symmetric, point='to_symmetric_matrix', immutable_args=True, normalize=True)
 
         # ------------------------------------------------ SO / SU
         def post_so(key, cayley):
@@ -357,8 +357,8 @@ class Mon:
                 mon.batched_vs_single(key, c, tol, thr)
             return post
 
-        ctx.attach(I, 'to_special_orthogonal_exp', post=post_so('to_special_orthogonal_exp', False), point='to_special_orthogonal_exp', immutable_args=True)
-        ctx.attach(I, 'to_special_orthogonal_cayley', post=post_so('to_special_orthogonal_cayley', True), point='to_special_orthogonal_cayley', immutable_args=True)
+        ctx.attach(I, 'to_special_orthogonal_exp', post=post_so('to_special_orthogonal_exp', False), point='to_special_orthogonal_exp', immutable_args=True, normalize=True)
+        ctx.attach(I, 'to_special_orthogonal_cayley', post=post_so('to_special_orthogonal_cayley', True), point='to_special_orthogonal_cayley', immutable_args=True, normalize=True)
 
         # ------------------------------------------------ Stiefel
         def gram_cond(th, dim, rank, layout):
@@ -421,10 +421,10 @@ class Mon:
                 mon.batched_vs_single(key, c, tol * 10, thr)
             return post
 
-        ctx.attach(S, 'to_stiefel_polar', post=post_stiefel('to_stiefel_polar', 'full'), point='to_stiefel_polar', immutable_args=True)
-        ctx.attach(S, 'to_stiefel_qr', post=post_stiefel('to_stiefel_qr', None), point='to_stiefel_qr', immutable_args=True)
-        ctx.attach(S, 'to_stiefel_choleskyL', post=post_stiefel('to_stiefel_choleskyL', 'chol'), point='to_stiefel_choleskyL', immutable_args=True)
-        ctx.attach(S, 'to_stiefel_euler', post=post_stiefel('to_stiefel_euler', None), point='to_stiefel_euler', immutable_args=True)
+        ctx.attach(S, 'to_stiefel_polar', post=post_stiefel('to_stiefel_polar', 'full'), point='to_stiefel_polar', immutable_args=True, normalize=True)
+        ctx.attach(S, 'to_stiefel_qr', post=post_stiefel('to_stiefel_qr', None), point='to_stiefel_qr', immutable_args=True, normalize=True)
+        ctx.attach(S, 'to_stiefel_choleskyL', post=post_stiefel('to_stiefel_choleskyL', 'chol'), point='to_stiefel_choleskyL', immutable_args=True, normalize=True)
+        ctx.attach(S, 'to_stiefel_euler', post=post_stiefel('to_stiefel_euler', None), point='to_stiefel_euler', immutable_args=True, normalize=True)
 
         # ------------------------------------------------ Module classes: forward() == functional(theta) + constraints
         import torch
@@ -689,6 +689,11 @@ class Driver:
                                         ctx.check(np.array_equal(to_numpy(r_view), to_numpy(r_ref), equal_nan=True), f'{name}/layout-dependent',
                                                   f'{name}: a non-contiguous view of theta gives a different result than a contiguous copy with the same values',
                                                   None, point='history/layout')
+                                    elif self.ncall % 5 == 2:
+                                        # API surface: the same call with every argument passed by keyword (names of the shipped signature)
+                                        import inspect
+                                        names = list(inspect.signature(ctx.orig(f)).parameters)
+                                        f(**dict(zip(names, (t,) + tuple(extra_args))))
                                     else:
                                         f(t, *extra_args)
 
